@@ -6,6 +6,8 @@ import (
 	"math/rand"
 	"strconv"
 	"strings"
+
+	sse "github.com/tmaxmax/go-sse"
 )
 
 // Generator for C16: Send/Flush sequences x messages x writer shapes x fault schedules (SESS),
@@ -211,7 +213,7 @@ func genOnSession(rng *rand.Rand) string {
 }
 
 func genProvider(rng *rand.Rand) string {
-	ret := pick(rng, "nil", "nil", "first", "first", "own:"+hxs(pick(rng, "go-sse.server: provider is closed", "refused", "", "a\nb")))
+	ret := pick(rng, "nil", "nil", "first", "first", "own:"+hxs(pick(rng, sse.ErrProviderClosed.Error(), "joe: "+sse.ErrProviderClosed.Error(), "refused", "", "a\nb")))
 	ops := "-"
 	if rng.Intn(4) != 0 {
 		ops = genSessOps(rng, 4)
